@@ -289,6 +289,25 @@ def cases(rng, tier, stats):
                 src = PRELUDE + G.render(G.toks_stmt(("print", ee)), "minimal") + "\n"
                 out.append(C.Case("long-chain", ["RUN " + C.hx(src)], default_compare, oracle, info={"src": src[-200:], "want": want, "operands": n}))
                 nl += 1
+    # container identity: `+` on two lists always yields a NEW list — also when one operand is empty — and `==` / `!=` on
+    # lists compare identity, so a concatenation is never equal to one of its own operands (directly or through a pure function)
+    lsrc = [G.var("ঘ"), G.var("চ"), G.lst(), G.lst(G.num(1)), G.grp(G.var("চ")), G.call("যোগ", G.var("চ"), G.var("চ")),
+            G.call("যোগ", G.var("ঘ"), G.var("চ"))]
+    ni = 0
+    for a in lsrc:
+        for b_ in lsrc:
+            for side in (G.var("ঘ"), G.var("চ")):
+                for cmp_ in ("==", "!="):
+                    for e in (G.bin_(cmp_, G.grp(G.bin_("+", a, b_)), side), G.bin_(cmp_, side, G.grp(G.bin_("+", a, b_))),
+                              G.bin_(cmp_, G.call("যোগ", a, b_), side)):
+                        try:
+                            want = render_val(Eval().ev(e))
+                        except TypeErr:
+                            want = "TYPEERROR"
+                        src = PRELUDE + G.render(G.toks_stmt(("print", e)), "minimal") + "\n"
+                        out.append(C.Case("container-identity", ["RUN " + C.hx(src)], default_compare, oracle, info={"src": src[-160:], "want": want}))
+                        ni += 1
+    stats["container_identity"] = ni
     # the complete operator x operand-type table (13 binary operators x 7 x 7 runtime types, 2 unary x 7): which cells
     # evaluate and which are type errors is a finite table — enumerated against the model, whose table is proved (C01.*_table)
     tvals = [G.num(3), G.b(True), G.s("ক"), G.var("ঘ"), G.var("নথি"), G.var("দ্বিগুণ"), G.var("শূ")]
